@@ -167,7 +167,7 @@ class Conv:
 
     # -- where is the client ------------------------------------------------
     def model_trace(self):
-        rc, tr = R.run_model(self.s.lines())
+        rc, tr = _retry(lambda: R.run_model(self.s.lines()))
         self._trace = tr
         return tr
 
@@ -381,12 +381,24 @@ class Conv:
 # ---------------------------------------------------------------------------
 # run one script on Impl and Model
 # ---------------------------------------------------------------------------
+def _retry(fn, tries=8):
+    """vlib.build_harness / build_model link straight onto the final path: while another check (another process) relinks the
+    shared binary it is briefly not executable (EACCES / ETXTBSY).  Retry instead of reporting an internal error."""
+    for k in range(tries):
+        try:
+            return fn()
+        except OSError:
+            if k == tries - 1:
+                raise
+            time.sleep(0.5 + k)
+
+
 def run_pair(script, impl_timeout=30):
     lines = script.lines()
     t0 = time.time()
-    rc, a = R.run_impl(lines, timeout=impl_timeout)
+    rc, a = _retry(lambda: R.run_impl(lines, timeout=impl_timeout))
     wall = time.time() - t0
-    rc2, b = R.run_model(lines)
+    rc2, b = _retry(lambda: R.run_model(lines))
     return {"lines": lines, "impl_rc": rc, "impl": a, "model": b, "impl_wall": wall,
             "hung": rc == 124 or any("[timeout after" in x for x in a[-2:])}
 
